@@ -115,7 +115,7 @@ namespace ev
         else
             vf::fail_nothrow("deadlock:ev", "all unfinished threads of the event case are blocked");
     }
-    static uint64_t count() { return vf::thorough() ? 5000 : 500; }
+    static uint64_t count() { return vf::thorough() ? 10000 : 500; }
     static void run(uint64_t idx)
     {
         vf::cls("ev");
